@@ -82,6 +82,7 @@ impl<M: Matcher> Replacer<M> {
                 matcher,
                 haystack,
                 range.clone(),
+                searcher.line_terminator(),
                 caps,
                 dst,
                 |caps, dst| {
@@ -546,6 +547,7 @@ fn replace_with_captures_in_context<M, F>(
     matcher: M,
     bytes: &[u8],
     range: std::ops::Range<usize>,
+    line_term: LineTerminator,
     caps: &mut M::Captures,
     dst: &mut Vec<u8>,
     mut append: F,
@@ -554,10 +556,16 @@ where
     M: Matcher,
     F: FnMut(&M::Captures, &mut Vec<u8>) -> bool,
 {
+    // A match that starts at the end of the range belongs to the next line,
+    // unless the range ends the haystack without a line terminator. In that
+    // case, it is an (empty) match at the end of the final line and must be
+    // replaced just like it is when the final line has a terminator.
+    let unterminated = range.end == bytes.len() && !line_term.is_suffix(bytes);
     let mut last_match = range.start;
     matcher.captures_iter_at(bytes, range.start, caps, |caps| {
         let m = caps.get(0).unwrap();
-        if m.start() >= range.end {
+        if m.start() >= range.end && !(unterminated && m.start() == range.end)
+        {
             return false;
         }
         dst.extend(&bytes[last_match..m.start()]);
